@@ -741,15 +741,16 @@ def run(ctx):
     quick = ctx.tier == "quick"
     max_n = 30 if quick else 300
     max_species = 10 if quick else 75
-    # (strategy, total examples quick, total examples thorough)
+    # (strategy, total examples quick, total examples thorough).  Measured: quick = 10 200 cases, ~100 s CPU over 8 shards
+    # (13 s wall on idle cores, 30-50 s at load average 50); thorough = 80 000 cases, 55 min CPU over 16 shards.
     plan = [
-        ("birth_death_tree", bd_cases(max_n), 2800, 12000),
-        ("fast_birth_death_tree", bd_cases(max_n), 2800, 24000),
-        ("uniform_pure_birth_tree", pb_cases(max_n), 1600, 8000),
-        ("pure_kingman_tree", kingman_cases(max_n), 1600, 8000),
-        ("mean_kingman_tree", kingman_cases(max_n), 800, 4000),
-        ("contained_coalescent_tree", contained_cases(max_species), 2000, 12000),
-        ("constrained_kingman_tree", constrained_cases(max_species), 2400, 12000),
+        ("birth_death_tree", bd_cases(max_n), 2000, 12000),
+        ("fast_birth_death_tree", bd_cases(max_n), 2000, 24000),
+        ("uniform_pure_birth_tree", pb_cases(max_n), 1200, 8000),
+        ("pure_kingman_tree", kingman_cases(max_n), 1200, 8000),
+        ("mean_kingman_tree", kingman_cases(max_n), 600, 4000),
+        ("contained_coalescent_tree", contained_cases(max_species), 1600, 12000),
+        ("constrained_kingman_tree", constrained_cases(max_species), 1600, 12000),
     ]
     for name, strat, nq, nt in plan:
         total = nq if quick else nt
